@@ -21,7 +21,7 @@ CORPUS = [
     'I:ac1=1;ac1=0;gc1;uc2=1;ac2=0 R:c1,2 R:c1,3 T:ah7=65535;gh7;gi7;gd1;dc1;dc1 R:c1,2 T:uh7=12 R:h7,1 T:ai0=3;ad9=1 R:i0,1 R:d9,1',
     # first absent address decides
     'I:ah10=1;ah12=3 R:h10,3 T:ah11=2 R:h10,3',
-    # a range that ends at address 65535 (found a server panic: AddressIterator overflow, fixed b1f343e)
+    # a range that ends at address 65535 (F7: server AddressIterator overflow, fixed in /repo as 95a9a3e; kept as a corpus case)
     'I:ah65535=9;ah65534=8 R:h65534,1 R:h65535,1 R:h65534,2 T:gh65535',
     'I:ac65535=1 R:c65535,1 R:c65534,2 T:ac65534=0 R:c65534,2',
     # same index in the four types is independent
